@@ -54,6 +54,16 @@ def generate(rng, tier, index):
         if r is None:
             return None
         spec, roles, g = r
+        if rng.random() < 0.1:
+            # a 0-element feature (empty slice / all-false mask) computed from a leaf nothing else uses: it
+            # still belongs to "the leaves from which features were computed" and must receive zeros
+            spec = copy.deepcopy(spec)
+            roles = copy.deepcopy(roles)
+            spec["leaves"].append({"name": "e0", "shape": [2], "rg": True, "vals": [0.5, -1.25]})
+            spec["nodes"].insert(0, {"op": "scale", "in": ["e0"], "out": ["e1"], "p": {"c": 3.0}})
+            spec["nodes"].insert(1, {"op": "slice", "in": ["e1"], "out": ["e2"], "p": {"dim": 0, "start": 0, "stop": 0}})
+            roles["features"] = list(roles["features"]) + ["e2"]
+            roles["trunk_leaves"] = list(roles["trunk_leaves"]) + ["e0"]
         t = len(roles["losses"])
         losses = list(roles["losses"])
         rng.shuffle(losses)
@@ -170,6 +180,8 @@ def execute(scn):
     events.append(["grads", digest({n: (None if world.t[n].grad is None else world.t[n].grad.detach().numpy().tobytes()) for n in world.leaf_names})])
     # reach probes on the program shape
     ops = [n["op"] for n in spec["nodes"]]
+    if any(model.values[f].val.size == 0 for f in call.get("features", [])):
+        stats["reach.zero_element_feature"] = 1
     if "detach" in ops:
         stats["reach.detached_subgraph"] = 1
     if any(o in ops for o in ("unbind", "split")):
